@@ -62,11 +62,6 @@ def handleEnvelope (cmd arg : String) : Option String :=
         | some id, some cs, some t => hexOf (encodeMsg id (Tag.structure t) cs)
         | _, _, _ => "bad-request"
       | _ => "bad-request")
-  | "ctls.parse" => some (match parseTlv arg with
-      | some t => (match parseControls t with
-        | some cs => showCtrls cs
-        | none => "none")
-      | none => "bad-request")
   | "frame.feed" =>
     -- frame.feed <hex chunk> … [eof]
     some (
